@@ -165,7 +165,7 @@ func (sc staticCase) run(h *harness.H) (out []rtOutcome) {
 
 func firstBad(out []rtOutcome) *rtOutcome {
 	for i := range out {
-		if out[i].Class != "" {
+		if out[i].Class != "" && out[i].Class != "inconclusive" {
 			return &out[i]
 		}
 	}
@@ -252,6 +252,9 @@ func layerStatic(h *harness.H) {
 		h.Eval()
 		out := sc.run(h)
 		for i, o := range out {
+			if o.Class == "inconclusive" {
+				h.Inconclusive("merge-matcher-budget")
+			}
 			if o.Class != "" {
 				continue
 			}
@@ -545,6 +548,10 @@ func (dc dynCase) run(w *world) (out []rtOutcome, apartSeen int) {
 			}
 			_ = isEmpty
 			cl, what := compareFrames(st.Series, fromFrame(got), spec)
+			if cl == "inconclusive" {
+				out = append(out, rtOutcome{Class: cl, Flags: flags})
+				continue
+			}
 			if cl != "" {
 				what = fmt.Sprintf("step %d (decoder %d updates ahead, flags %s): %s", si, d-e, flagString(flags), what)
 				return append(out, rtOutcome{Class: cl, What: what, Flags: flags}), apartSeen
@@ -557,6 +564,29 @@ func (dc dynCase) run(w *world) (out []rtOutcome, apartSeen int) {
 		}
 	}
 	return out, apartSeen
+}
+
+// pendingOK reports whether the script keeps the number of updates queued on either codec
+// between two frames that reach the binary codec below the queue size (Update blocks
+// beyond it).
+func (dc dynCase) pendingOK() bool {
+	pe, pd := 0, 0
+	for _, st := range dc.Steps {
+		switch st.Op {
+		case "upd-enc":
+			pe++
+		case "upd-dec":
+			pd++
+		case "frame":
+			if len(st.Series) > 0 || dc.Wrap == "" || dc.Wrap == "writer-request" {
+				pe, pd = 0, 0
+			}
+		}
+		if pe > maxPending || pd > maxPending {
+			return false
+		}
+	}
+	return true
 }
 
 func (dc dynCase) minimise(w *world, class string) dynCase {
@@ -574,7 +604,7 @@ func (dc dynCase) minimise(w *world, class string) dynCase {
 		}
 		c := cur
 		c.Steps = append(append([]dynStep{}, cur.Steps[:i]...), cur.Steps[i+1:]...)
-		if same(c) {
+		if c.pendingOK() && same(c) {
 			cur = c
 		} else {
 			i++
@@ -590,7 +620,7 @@ func (dc dynCase) minimise(w *world, class string) dynCase {
 			st := c.Steps[si]
 			st.Series = append(append([]mSeries{}, st.Series[:i]...), st.Series[i+1:]...)
 			c.Steps[si] = st
-			if same(c) {
+			if c.pendingOK() && same(c) {
 				cur = c
 			} else {
 				i++
@@ -643,6 +673,10 @@ func layerDynamic(h *harness.H) {
 			}
 			o := out[fi]
 			fi++
+			if o.Class == "inconclusive" {
+				h.Inconclusive("merge-matcher-budget")
+				continue
+			}
 			if o.Class != "" {
 				break
 			}
